@@ -331,6 +331,7 @@ def run(ctx):
                             # no location, a namespace other loads of this process have fetched from somewhere
                             '<xsd:import namespace="urn:inc"/>',
                             "WSDL-IMPORT-RELATIVE",
+                            "WSDL-IMPORT-NO-LOCATION", "WSDL-IMPORT-EMPTY-LOCATION",
                             "SCHEMALOCATION-HINT",
                             # an explicit location for a namespace suds has a built-in location for: the named copy is
                             # the document asked for, not the built-in one
@@ -344,6 +345,11 @@ def run(ctx):
                                 # when a file of that name happens to lie in the working directory
                                 main = wsdlkit.wsdl_doc(schema, "f", "fResponse").replace(
                                     b"<wsdl:types>", b'<wsdl:import namespace="urn:inc" location="local.xsd"/><wsdl:types>', 1)
+                            elif extra_decl.startswith("WSDL-IMPORT-"):
+                                # a wsdl:import that names no location names no document: its namespace is a name
+                                main = wsdlkit.wsdl_doc(schema, "f", "fResponse").replace(
+                                    b"<wsdl:types>", b'<wsdl:import namespace="http://127.0.0.1:9/odd-wsdl-ns"%s/><wsdl:types>'
+                                    % (b' location=""' if "EMPTY" in extra_decl else b""), 1)
                             elif extra_decl == "SCHEMALOCATION-HINT":
                                 # an xsi:schemaLocation hint on the schema node names no document to fetch
                                 main = wsdlkit.wsdl_doc('<xsd:import namespace="urn:hinted"/>' + schema, "f", "fResponse").replace(
@@ -368,7 +374,8 @@ def run(ctx):
                             except Exception as e:
                                 out.append(type(e).__name__)
                             if extra_decl.startswith(("<xl:", '<xsd:import namespace="http://127.0.0.1', "<xsd:redefine",
-                                                      '<xsd:import namespace="urn:inc"/>', "SCHEMALOCATION-HINT")) and len(asked) != 1:
+                                                      '<xsd:import namespace="urn:inc"/>', "SCHEMALOCATION-HINT",
+                                                      "WSDL-IMPORT-NO-LOCATION")) and len(asked) != 1:
                                 out.append("%s fetched: %r" % (MARK, asked[1:]))
                             if any(u.startswith("file:") or not u.startswith(("http://fetch.invalid/", "suds:"))
                                    for u in asked):
@@ -408,6 +415,65 @@ def run(ctx):
                         big = ('<e:Envelope xmlns:e="%s"><e:Body><fResponse xmlns="%s"><r>%s</r></fResponse></e:Body>'
                                '</e:Envelope>' % (xmlread.ENV11, wsdlkit.TNS, "x" * (5 * 1024 * 1024))).encode()
                         return str(len(str(c.service.f("x", __inject={"reply": big}))))
+                    def ep_cache_folder_only(schema=schema):
+                        # a cache is the folder it was given: on a miss nothing is looked up in any other folder - not in
+                        # the default one under the temporary directory either, where a same-named file lies
+                        import tempfile
+                        cd = os.path.join(work, "cache-own-%d" % (abs(hash(name)) % 10**6))
+                        tmp = os.path.join(work, "tmp-of-the-process-%d" % (abs(hash(name)) % 10**6))
+                        os.makedirs(os.path.join(tmp, "suds"), exist_ok=True)
+                        old_tmp = tempfile.tempdir
+                        tempfile.tempdir = tmp
+                        try:
+                            store = suds.store.DocumentStore()
+                            store.update({"main.wsdl": wsdlkit.wsdl_doc(schema, "f", "fResponse")})
+                            for cls, pol in ((suds.cache.DocumentCache, 0), (suds.cache.ObjectCache, 1)):
+                                suds.client.Client("suds://main.wsdl", documentStore=store, cache=cls(location=cd), cachingpolicy=pol)
+                            planted = wsdlkit.wsdl_doc(schema.replace('name="f"', 'name="%s"' % MARK), MARK, "fResponse", op=MARK)
+                            RECORD[0] = False          # (the harness's own writes)
+                            for fn in os.listdir(cd):
+                                if fn.startswith("suds-"):
+                                    with open(os.path.join(tmp, "suds", fn), "wb") as fh:
+                                        fh.write(planted)
+                                    os.remove(os.path.join(cd, fn))
+                            RECORD[0] = True
+                            out = []
+                            for cls, pol in ((suds.cache.DocumentCache, 0), (suds.cache.ObjectCache, 1)):
+                                try:
+                                    out.append(str(suds.client.Client("suds://main.wsdl", documentStore=store,
+                                                                      cache=cls(location=cd), cachingpolicy=pol)))
+                                except Exception as e:
+                                    out.append(type(e).__name__)
+                            return " ".join(out)
+                        finally:
+                            tempfile.tempdir = old_tmp
+
+                    def ep_cache_protocols(schema=schema):
+                        # the document loaded is the one the caller named: a document cached under one protocol is not
+                        # served for the same host and path under another one
+                        import io
+                        cd = os.path.join(work, "cache-protocols-%d" % (abs(hash(name)) % 10**6))
+                        first = wsdlkit.wsdl_doc(schema.replace('name="f"', 'name="%s"' % MARK), MARK, "fResponse", op=MARK)
+                        second = wsdlkit.wsdl_doc(schema, "f", "fResponse")
+                        asked = []
+
+                        class TT(suds.transport.Transport):
+                            def open(self, request):
+                                asked.append(request.url)
+                                return io.BytesIO(first if request.url.startswith("http:") else second)
+
+                            def send(self, request):
+                                raise AssertionError("no send")
+                        suds.client.Client("http://fetch.invalid/p/main.wsdl", transport=TT(), cache=suds.cache.DocumentCache(location=cd),
+                                           cachingpolicy=0)
+                        out = []
+                        for url in ("https://fetch.invalid/p/main.wsdl", "ftp://fetch.invalid/p/main.wsdl"):
+                            cl = suds.client.Client(url, transport=TT(), cache=suds.cache.DocumentCache(location=cd), cachingpolicy=0)
+                            out.append(str(cl))
+                        if asked != ["http://fetch.invalid/p/main.wsdl", "https://fetch.invalid/p/main.wsdl",
+                                     "ftp://fetch.invalid/p/main.wsdl"]:
+                            out.append("%s not fetched: %r" % (MARK, asked))
+                        return " ".join(out)
                     extra = [("transport-fetch", ep_transport_fetch), ("str-reply", ep_str_reply),
                              ("store-served", ep_store_served), ("huge-reply", ep_huge_reply)] if rep == 0 and \
                         name in ("none", "internal-only") else []
@@ -417,6 +483,8 @@ def run(ctx):
                     if rep == 0 and name in ("none", "internal-only"):
                         extra.append(("send-only-transport", ep_send_only_transport))
                         extra.append(("odd-locations", ep_odd_locations))
+                        extra.append(("cache-folder-only", ep_cache_folder_only))
+                        extra.append(("cache-protocols", ep_cache_protocols))
                     entry_points = extra + [("error-path", ep_error_path), ("import-url", ep_import_url),
                                     ("inject", ep_inject), ("transport", ep_transport), ("reqctx", ep_reqctx),
                                     ("parser", ep_parser), ("wsdl", ep_wsdl), ("import", ep_import), ("cache", ep_cache)]
